@@ -6,14 +6,15 @@ PROP = "C12"
 DRIVER = "c12"
 MODEL = "C12"
 MODEL_QUALID = "Model.Hedge.run_script"
-FORMAT = ("script [max; mode; ncalls; nd; d_1..d_nd; (op a b)*] mode mod 4: 0=Fixed(d_1) 1=Immediate 2=Dynamic(attempt k -> d_k, 0 beyond nd); "
+FORMAT = ("script [max; mode; ncalls; nd; d_1..d_nd; (op a b)*] max: 0..16 as given to the builder (0 becomes 1); above 16 it is the configured maximum (capped at usize::MAX) "
+          "if the delay is Fixed and positive, else it counts as 16; mode mod 4: 0=Fixed(d_1) 1=Immediate 2=Dynamic(attempt k -> d_k, 0 beyond nd); "
           "(mode/4) mod 2 = 1: gated readiness (attempt clones of the inner service are not ready until the script's Ready op; the instance used by the primary is ready); "
           "(mode/8) mod 4: 0 = each call on its own Hedge value, 1 = all calls through one Hedge value, 2 = call i through a clone of the value used by call i-1, "
           "3 = even calls through one value, odd calls through a fresh clone of it; (mode/32) mod 2 = 1: the d_k are microseconds, else milliseconds; d_k >= 10^18 = Duration::MAX; "
           "op 1=Poll i 2=Drop i 3=Advance a(ms) 4=Complete a b (a=16*i+n: the n-th inner call made for call i; b: 0 ok,1 err,2 panic; the value carried is a) "
           "5=Ready a (a=16*i+k: the clone of hedge attempt k of call i becomes ready) 6=ReadyErr a (a=16*i+k: poll_ready of that clone returns Err(64+a) from now on: "
           "the attempt fails without an inner call) 7=SyncPanic a (a=16*i+n: that inner call panics, synchronously inside inner.call() if it has not been made yet). "
-          "Call i uses request value i. "
+          "8=Create i (Hedge::call() now, no poll; otherwise a call is made by its first Poll/Drop). Call i uses request value i. "
           "trace: per event [r; v; ns; nl; wake mask; in-flight; now_ms] with r: -1 no poll, 0 pending, 1 Ok(v), 2 Err(Inner v), "
           "3 Err(AllAttemptsFailed v), 5 panicked, 9 nothing to poll; ns = sum_i (inner calls started for call i in this event)*32^i; "
           "nl = sum_i (hedge attempt tasks of call i that ran for the first time, i.e. asked their clone for readiness, in this event)*32^i")
@@ -22,7 +23,8 @@ RULE = ("timeline scripts built from a vector of per-attempt completion instants
         "per-attempt delays incl. zeros, sub-millisecond and fractional-millisecond delays (microsecond unit), 30-100 s delays and Duration::MAX (fixed and per-attempt); "
         "back-pressured clones (gated readiness: ready before launch, at launch, later, after the primary's success, never; out of order); "
         "clones whose poll_ready fails (before launch, while the attempt waits, after its call; gated or not); "
-        "1-4 concurrent calls on separate Hedge values, through one value, through a chain of clones; "
+        "1-4 concurrent calls on separate Hedge values, through one value, through a chain of clones; calls made some time before their first poll (Create); "
+        "max_hedged_attempts 0 (builder clamp), 17..300 with runs long enough to reach them, and usize::MAX / just above and at tokio's Semaphore::MAX_PERMITS (fixed positive delay); "
         "random event soups; exhaustive short scripts over a small alphabet (thorough); "
         "non-trivial = at least one hedge attempt was started or the call resolved with AllAttemptsFailed")
 TRUSTED = ["tokio mpsc (FIFO, receiver woken by every send and by the last sender going away), tokio::spawn (tasks run in spawn order when the harness yields), "
@@ -34,13 +36,15 @@ ASSUMPTIONS = ["whole-millisecond instants (the clock moves in 1 ms steps); dela
                "poll_ready of an attempt clone is Ready(Ok) at once, Pending until the script's Ready op (gated runs), or Ready(Err) once the script's ReadyErr op has been seen; "
                "the instance the caller drove to readiness (used by the primary) never fails",
                "at most one hedged call per request value, so that the n-th inner call of call i is the n-th inner call with request i",
-               "max_hedged_attempts <= 16 (mpsc::channel(max) panics above usize::MAX >> 3; not driven)"]
+               "max_hedged_attempts above 16 is driven only with a fixed positive delay (one hedge per poll at most), and only the first 16 inner calls of a call can be completed by a script"]
 # scripts on which the REAL code violates the property (kept out of the pass/fail decision by the coordinator)
 KNOWN_DEFECT = []
 
 EVW = 7
 DMAX = 10 ** 18
 INF = 10 ** 30
+USIZE_MAX = 2 ** 64 - 1
+MAX_PERMITS = USIZE_MAX >> 3     # tokio::sync::Semaphore::MAX_PERMITS: mpsc::channel panics above it
 
 
 def mk(mx, mode, ncalls, ds, evs):
@@ -52,16 +56,17 @@ def mk(mx, mode, ncalls, ds, evs):
 
 def header(s):
     g = lambda i: s[i] if i < len(s) else 0
-    mx = max(1, min(16, max(0, g(0))))
     mode = min(63, max(0, g(1)))    # mode % 4: delay kind, (mode // 4) % 2: gated, (mode // 8) % 4: sharing, (mode // 32) % 2: microseconds
     ncalls = min(4, max(0, g(2)))
     nd = min(16, max(0, g(3)))
     ds = [min(DMAX, max(0, g(4 + j))) for j in range(nd)]
+    fixed_pos = mode % 4 not in (1, 2) and nd > 0 and ds[0] > 0
+    mx = min(g(0), USIZE_MAX) if g(0) > 16 and fixed_pos else max(1, min(16, max(0, g(0))))
     body = s[4 + nd:]
     evs = [tuple(body[i:i + 3]) for i in range(0, len(body) - len(body) % 3, 3)]
     keep = []
     for (op, a, b) in evs:
-        if op in (1, 2):
+        if op in (1, 2, 8):
             if 0 <= a < ncalls:
                 keep.append((op, a, b))
         elif op == 3:
@@ -132,15 +137,23 @@ def decode(s, t):
 # all failed does report so; how soon after its delay a hedge is launched; whether a hedge is
 # launched in the very poll that finds the primary's success; wake-ups that deliver no success;
 # Err(Inner) versus AllAttemptsFailed (both count as the call giving up).
-# Two layers. (1) monitor_bounds needs no bookkeeping: the number of inner calls, and a lower bound
-# on the instant of the n-th one. (2) monitor_call follows the attempts through the trace; to know
-# which attempt made which inner call it relies on the event discipline of the code as written (the
-# primary is started by the first poll, hedges are launched by polls, a launched hedge whose clone is
-# ready makes its call at once, a waiting one when its clone is readied). A trace that does not keep
-# this discipline is not a violation of C12: the second layer then stops following that call
-# (Unfollowable) and the difference is left to the comparison with the model.
+# Two layers. (1) monitor_free needs no bookkeeping about attempts: it states every clause in the form
+# that can be read off the inner calls alone (the n-th inner call made for the request, its scripted
+# outcome, the readiness failures scripted for the call). (2) monitor_call follows the attempts through
+# the trace and states the clauses in their exact form (launch instants pairwise, all at once in parallel
+# mode, first QUEUED success, nobody waiting); to know which attempt made which inner call it relies on
+# the event discipline of the code as written (the primary is started by the first poll, hedges are
+# launched by polls, a launched hedge whose clone is ready makes its call at once, a waiting one when its
+# clone is readied). A trace that does not keep this discipline is not a violation of C12: the second
+# layer then ABSTAINS on that call (Unfollowable) and only layer 1 and the comparison with the model
+# speak. Abstention is not silent: classify() labels the script `monitor_layer2_abstained`, compare()
+# says so in its message, and compare() fails the run if traces that EQUAL the model's are abstained on
+# (on the unchanged tree the second layer follows every script).
 class Unfollowable(Exception):
     pass
+
+
+ABSTENTION = {"scripts": 0, "abstained": 0, "reported": False}
 
 
 def monitor(s, t):
@@ -149,41 +162,124 @@ def monitor(s, t):
         return "malformed or panicking run: %s" % t[:12]
     mx, mode, ncalls, ds, evt = d
     lat = latency_mode(mode, ds) and mx > 1
+    ABSTENTION["scripts"] += 1
+    abstained = False
     for i in range(ncalls):
-        m = monitor_bounds(i, mx, mode, ds, lat, evt)
+        m = monitor_free(i, mx, mode, ds, lat, evt)
         if not m:
             try:
                 m = monitor_call(i, mx, mode, ds, lat, evt)
             except Unfollowable:
                 m = None
+                abstained = True
         if m:
             return "call %d: %s" % (i, m)
+    if abstained:
+        ABSTENTION["abstained"] += 1
     return None
 
 
-def monitor_bounds(i, mx, mode, ds, lat, evt):
-    """clause 1 for the whole life of the request (also after the call resolved or was dropped), and the
-    part of clause 2 that holds whatever 'started' means under back-pressure: attempt k is not started
-    before (creation of the call) + delay(1) + ... + delay(k), so neither is the k-th inner call in time order"""
+def abstention(s, t):
+    """why the second layer of the monitor does not follow this trace (None: it does)"""
+    d = decode(s, t)
+    if d is None:
+        return None
+    mx, mode, ncalls, ds, evt = d
+    lat = latency_mode(mode, ds) and mx > 1
+    for i in range(ncalls):
+        try:
+            monitor_call(i, mx, mode, ds, lat, evt)
+        except Unfollowable as u:
+            return "call %d: %s" % (i, u)
+    return None
+
+
+def compare(s, impl, model):
+    if impl != model:
+        why = abstention(s, impl)
+        return "traces differ" + ("; the monitor's second layer abstains on the implementation's trace (%s)" % why if why else "")
+    why = abstention(s, impl)
+    if why:
+        # the implementation agrees with the model and yet the monitor cannot follow it: a defect of the monitor
+        return "the monitor's second layer abstains on a trace that equals the model's (%s)" % why
+    if not ABSTENTION["reported"] and ABSTENTION["abstained"] > 20 and 50 * ABSTENTION["abstained"] > ABSTENTION["scripts"]:
+        ABSTENTION["reported"] = True
+        return ("the monitor's second layer abstained on %d of %d scripts: clauses 3 and 4 were judged in their bookkeeping-free form only"
+                % (ABSTENTION["abstained"], ABSTENTION["scripts"]))
+    return None
+
+
+def monitor_free(i, mx, mode, ds, lat, evt):
+    """All four clauses in the form that needs no bookkeeping about attempts.
+    1: at most max inner calls, for the whole life of the request (also after the call resolved or was dropped).
+    2: attempt k is not started before (start of the primary) + delay(1) + ... + delay(k), whatever 'started' means
+       under back-pressure, so neither is the k-th inner call in time order after the first one.
+    3: a poll of the unresolved call that finds a successful inner call (made and completed at earlier events, the call
+       future having been polled at an earlier event: inner futures are driven by the call future's tasks) returns
+       Ok with the value of an earliest such success, Ok is returned only then, and such a success wakes the future.
+    4: the call gives up only if at least max attempts can have failed: inner calls made and completed with an error
+       or a panic, plus clones whose readiness failure was scripted."""
     total = 0
-    t_create = None
-    due = 0              # microseconds after creation before which inner call number `total` must not happen
-    for (e, o) in evt:
+    made = []            # event index at which inner call n was made
+    t_first = None       # instant of the first inner call
+    due = 0              # microseconds after t_first before which inner call number `total` must not happen
+    outcome = {}         # n -> (b, event index of the Complete / SyncPanic)
+    rfail = set()        # hedge clones with a scripted readiness failure
+    alive = True
+    last_poll = -1
+    first_poll = None    # event index of the first poll of the call future
+    for idx, (e, o) in enumerate(evt):
         op, a, b = e
-        now = o[6]
-        if t_create is None and op in (1, 2) and a == i:
-            t_create = now
-        for _ in range((o[2] >> (5 * i)) & 31):
+        r, v, ns, nl, mask, infl, now = o
+        if op in (4, 7) and a // 16 == i and a % 16 not in outcome:
+            outcome[a % 16] = (2 if op == 7 or b not in (0, 1) else b, idx)
+        if op == 6 and a // 16 == i and a % 16 >= 1:
+            rfail.add(a % 16)
+        if op == 2 and a == i:
+            alive = False
+        if op == 1 and a == i and alive:
+            # an inner future exists from inner.call() on but is driven only once the call future has been polled:
+            # a result is available after the call was made, completed, and the call future polled for the first time
+            avail = dict((n, max(made[n], outcome[n][1], first_poll)) for n in range(total)
+                         if n in outcome and outcome[n][0] == 0 and first_poll is not None)
+            if first_poll is None:
+                first_poll = idx
+            if avail:
+                first = min(avail.values())
+                winners = [16 * i + n for n in avail if avail[n] == first]
+                if r != 1 or v not in winners:
+                    return ("inner call(s) %s had succeeded before the poll at %d ms but the call returned (r=%d, v=%d)"
+                            % (sorted(avail), now, r, v))
+            elif r == 1:
+                return "resolved Ok(%d) at %d ms although no inner call made so far has succeeded" % (v, now)
+            # C12 quantifies over outcomes ok / error: a panic of the call future is not judged once an inner call
+            # that was actually made has panicked (the inner panic propagating); any other panic is a give-up
+            # (made by this event at the latest: Hedge::call() and the first poll share an event unless `Create` is used)
+            excused = r == 5 and any(outcome[n][0] == 2 for n in outcome if n < total + ((ns >> (5 * i)) & 31))
+            if r in (2, 3, 5) and not excused:
+                failed = len([n for n in outcome if n < total and outcome[n][0] != 0]) + len([k for k in rfail if k < mx])
+                if failed < mx:
+                    return ("%s at %d ms although only %d of %d attempts can have failed (%d inner calls made)"
+                            % ({2: "Err(Inner)", 3: "AllAttemptsFailed", 5: "panic of the call future"}[r], now, failed, mx, total))
+            if r != 0:
+                alive = False
+            last_poll = idx
+        for _ in range((ns >> (5 * i)) & 31):
             if total >= mx:
                 return "%d inner calls started by %d ms, max_hedged_attempts = %d" % (total + 1, now, mx)
-            if t_create is None:
-                return "inner call at %d ms for a call that was never made" % now
-            if lat and 1000 * (now - t_create) < due:
-                return ("inner call %d at %d ms, less than the first %d configured delays (%s us) after the call was made (%d ms)"
-                        % (total, now, total, due, t_create))
+            if t_first is None:
+                t_first = now
+            if lat and 1000 * (now - t_first) < due:
+                return ("inner call %d at %d ms, less than the first %d configured delays (%s us) after the first inner call (%d ms)"
+                        % (total, now, total, due, t_first))
             total += 1
+            made.append(idx)
             if lat and total < mx:
                 due = min(INF, due + delay_us(mode, ds, total))
+        if alive and last_poll >= 0 and not (mask >> i) & 1:      # a future that was never polled has no waker
+            for n in range(total):
+                if n in outcome and outcome[n][0] == 0 and max(made[n], outcome[n][1], first_poll) >= last_poll:
+                    return "inner call %d had succeeded by event %d but the call future was not woken" % (n, idx)
     return None
 
 
@@ -266,9 +362,9 @@ def monitor_call(i, mx, mode, ds, lat, evt):
                 return "resolved Ok(%d) at %d ms without a queued success" % (v, now)
             # clause 4: the call gives up (AllAttemptsFailed; Err(Inner) and a panic of the call future are
             # no better) only if every attempt was launched, none is still waiting to be started, and each has failed.
-            # C12 quantifies over outcomes ok / error: once an inner panic has been scripted for this call, a panic
+            # C12 quantifies over outcomes ok / error: once an inner call that was made has panicked, a panic
             # of the call future (the inner panic propagating) is not judged.
-            if r == 5 and any(x[0] == 2 for x in outcome.values()):
+            if r == 5 and any(outcome[n][0] == 2 for n in outcome if n < len(calls) + n_new):
                 alive = False
                 continue
             if r in (2, 3, 5):
@@ -279,7 +375,7 @@ def monitor_call(i, mx, mode, ds, lat, evt):
                     return "%s at %d ms while attempt(s) %s have not made their inner call yet" % (what, now, waiting)
                 failed = set(k for (_, k, _, bb) in delivered if bb == 1) | \
                     set(calls[n][0] for n in outcome if outcome[n][0] == 2 and n < len(calls))
-                if failed != set(range(mx)):
+                if len(failed) != mx or any(k >= mx for k in failed):
                     return "%s at %d ms but only attempts %s have failed" % (what, now, sorted(failed))
             taken = len(delivered)
             if r != 0:
@@ -327,7 +423,7 @@ def monitor_call(i, mx, mode, ds, lat, evt):
                     return ("inner call %d (attempt %d) at %d ms, less than %s us after inner call %d at %d ms"
                             % (n, calls[n][0], calls[n][1], dus(calls[n][0]), n - 1, calls[n - 1][1]))
         # "as soon as it is available": an unseen queued success must have woken the call future
-        if any(bb == 0 for (_, _, _, bb) in delivered[taken:]) and not woke:
+        if first_poll is not None and any(bb == 0 for (_, _, _, bb) in delivered[taken:]) and not woke:
             return "a success was queued at event %d but the call future was not woken" % idx
     return None
 
@@ -423,6 +519,26 @@ def corpus():
         mk(2, 0, 1, [10], [(7, 0, 0), P(), A(10), P(), C(0, 1, 0), P()]),
         mk(3, 1, 1, [], [(7, 1, 0), P(), (7, 0, 0), C(0, 2, 1), P()]),
         mk(2, 1, 1, [], [(7, 0, 0), (7, 1, 0), P(), P()]),
+        # ---- fix 787162c: a maximum above tokio's channel limit (usize::MAX = "no limit") used to panic every call
+        # before the primary was sent (reproducer notes/fix-demos/hedge_huge_max.rs); at / just above the limit; with hedges
+        mk(USIZE_MAX, 0, 1, [50], [P(), C(0, 0, 0), P()]),
+        mk(MAX_PERMITS + 1, 0, 1, [50], [P(), C(0, 0, 0), P()]),
+        mk(MAX_PERMITS, 0, 1, [50], [P(), C(0, 0, 1), P(), A(50), P(), C(0, 1, 0), P()]),
+        mk(USIZE_MAX, 0, 1, [10], [P(), A(10), P(), C(0, 1, 0), P()]),
+        mk(USIZE_MAX, 0, 1, [10], [P(), C(0, 0, 1), A(10), P(), C(0, 1, 1), P(), A(10), P(), A(10), P(), C(0, 3, 0), P()]),
+        mk(USIZE_MAX, 32 + 4, 2, [1500], [P(0), P(1), A(2), P(0), P(1), R(1, 1), C(1, 1, 0), P(1), E(0, 1), P(0), A(2), P(0), C(0, 1, 0), P(0)]),
+        # ---- max_hedged_attempts(0): the builder stores 1
+        mk(0, 0, 1, [10], [P(), C(0, 0, 0), P()]),
+        mk(0, 1, 1, [], [P(), A(5), P(), C(0, 0, 1), P()]),
+        # ---- the call is made some time before its first poll: the hedge delay counts from the first poll (the start of
+        # the primary), not from Hedge::call()
+        mk(2, 0, 1, [400], [(8, 0, 0), A(150), P(), A(399), P(), A(1), P(), C(0, 1, 0), P()]),
+        mk(3, 2, 1, [5, 7], [(8, 0, 0), A(20), P(), A(5), P(), A(6), P(), A(1), P(), C(0, 2, 1), C(0, 1, 1), C(0, 0, 1), P()]),
+        mk(2, 0, 1, [10], [(8, 0, 0), A(30), D()]),
+        mk(2, ONE + 0, 2, [10], [(8, 0, 0), (8, 1, 0), A(10), P(1), A(5), P(0), A(5), P(1), P(0), A(5), P(0), C(0, 1, 0), C(1, 0, 0), P(0), P(1)]),
+        # ---- more than 16 attempts: the bound is reached after 19 hedges; 300 attempts in a run of 310 polls
+        mk(20, 0, 1, [1], [P()] + [x for _ in range(25) for x in (A(1), P())]),
+        mk(300, 0, 1, [1], [P()] + [x for _ in range(310) for x in (A(1), P())]),
         # ---- max_hedged_attempts = 16, parallel: all fail / the last one succeeds
         mk(16, 1, 1, [], [P()] + [C(0, k, 1) for k in range(16)] + [P()]),
         mk(16, 1, 1, [], [P()] + [C(0, k, 1) for k in range(15)] + [P(), C(0, 15, 0), P()]),
@@ -433,7 +549,8 @@ TIMES_NEAR = (-1, 0, 1)
 
 
 def timeline_script(rng, ncalls=1):
-    mx = rng.choice([1, 2, 2, 3, 3, 4, 5, 5, 7, 16])
+    mx_raw = rng.choice([0, 1, 2, 2, 3, 3, 4, 5, 5, 7, 16])
+    mx = max(1, mx_raw)
     kind = rng.random()
     unit = 0
     if kind < 0.38:
@@ -469,8 +586,14 @@ def timeline_script(rng, ncalls=1):
     if ncalls > 1 or rng.random() < 0.1:
         mode += 8 * rng.choice([0, 1, 1, 2, 3])
     todo = []   # (time, order, event)
+    created_early = set()
     for i in range(ncalls):
         off = 0 if i == 0 else rng.choice([0, 0, 3, min(ideal[-1], 200)])
+        if rng.random() < 0.2:
+            # Hedge::call() at 0, first poll `off` ms later: every instant of this call shifts with its first poll
+            created_early.add(i)
+            off = rng.choice([1, 3, 7, min(ideal[min(1, mx - 1)], 200) + rng.choice([0, 1, 5])])
+            todo.append((off, -1.0, (1, i, 0)))
         # clones whose poll_ready fails (with or without back-pressure)
         if rng.random() < 0.3 and mx >= 2:
             for k in range(1, mx):
@@ -522,9 +645,9 @@ def timeline_script(rng, ncalls=1):
         for i in range(ncalls):
             if style == "prompt" or (style == "lazy" and rng.random() < 0.5) or (style == "sparse" and rng.random() < 0.15):
                 evs.append((1, i, 0))
-    # call i's first poll
+    # call i's first poll (or its creation only)
     for i in range(ncalls):
-        evs.append((1, i, 0))
+        evs.append((8, i, 0) if i in created_early else (1, i, 0))
     marks = sorted(set([x for x in ideal] + [tm for (tm, _, _) in todo] + [horizon]))
     ti = 0
     for mark in marks:
@@ -546,11 +669,43 @@ def timeline_script(rng, ncalls=1):
             polls()
     for i in range(ncalls):
         evs.append((1, i, 0))
-    return mk(mx, mode, ncalls, ds, evs)
+    return mk(mx_raw, mode, ncalls, ds, evs)
+
+
+def large_max_script(rng):
+    """max_hedged_attempts above 16 -- up to usize::MAX -- with a fixed positive delay: one hedge per poll at most"""
+    big = rng.choice([17, 64, 300, MAX_PERMITS, MAX_PERMITS + 1, USIZE_MAX, USIZE_MAX])
+    mode, ds = rng.choice([(0, [1]), (0, [2]), (0, [5]), (0, [10]), (32, [1500]), (32, [700])])
+    d = delay_of(mode, ds, 1)
+    is_g = rng.random() < 0.3
+    if is_g:
+        mode += 4
+    ncalls = rng.choice([1, 1, 2])
+    if ncalls > 1:
+        mode += 8 * rng.choice([0, 1, 2])
+    evs = [(1, i, 0) for i in range(ncalls)]
+    launched = 1
+    for _ in range(rng.randint(3, 26)):
+        x = rng.random()
+        i = rng.randrange(ncalls)
+        if x < 0.3:
+            evs.append((3, rng.choice([d, d, d - 1 if d > 1 else d, 1, d + 1]), 0))
+        elif x < 0.6:
+            evs.append((1, i, 0)); launched += 1
+        elif x < 0.64:
+            evs.append((2, i, 0))
+        elif x < 0.9 or not is_g:
+            evs.append((4, 16 * i + rng.randrange(min(launched, 15) + 1), rng.choice([0, 1, 1, 1, 2])))
+        elif x < 0.96:
+            evs.append((5, 16 * i + rng.randrange(1, min(launched, 14) + 2), 0))
+        else:
+            evs.append((6, 16 * i + rng.randrange(1, min(launched, 14) + 2), 0))
+    evs += [(1, i, 0) for i in range(ncalls)]
+    return mk(big, mode, ncalls, ds, evs)
 
 
 def random_script(rng, maxlen=30):
-    mx = rng.choice([1, 2, 2, 3, 3, 4])
+    mx = rng.choice([0, 1, 2, 2, 3, 3, 4])
     mode, ds = rng.choice([(0, [3]), (0, [5]), (0, [0]), (1, []), (2, [0, 4]), (2, [2, 0, 3]), (2, [0, 0, 5]), (2, []),
                            (32, [1500]), (34, [900, 0, 2001]), (0, [DMAX]), (2, [2, DMAX])])
     ncalls = rng.choice([1, 1, 2, 2, 3, 4])
@@ -560,13 +715,16 @@ def random_script(rng, maxlen=30):
     mode += 8 * rng.choice([0, 0, 1, 2, 3])
     p_err = rng.choice([0, 0, 0.08, 0.15])
     evs = []
+    mxe = max(1, mx)
     for _ in range(rng.randint(3, maxlen)):
         x = rng.random()
         i = rng.randrange(ncalls)
-        if rng.random() < p_err:
-            evs.append((6, 16 * i + rng.randrange(1, mx + 1), 0))
+        if rng.random() < 0.04:
+            evs.append((8, i, 0))
+        elif rng.random() < p_err:
+            evs.append((6, 16 * i + rng.randrange(1, mxe + 1), 0))
         elif is_g and rng.random() < 0.15:
-            evs.append((5, 16 * i + rng.randrange(1, mx + 1), 0))
+            evs.append((5, 16 * i + rng.randrange(1, mxe + 1), 0))
         elif x < 0.45:
             evs.append((1, i, 0))
         elif x < 0.50:
@@ -574,25 +732,28 @@ def random_script(rng, maxlen=30):
         elif x < 0.72:
             evs.append((3, rng.choice([1, 1, 2, 3, 4, 5, 5, 8]), 0))
         elif x < 0.97:
-            evs.append((4, 16 * i + rng.randrange(mx + 1), rng.choice([0, 1, 1, 1, 2])))
+            evs.append((4, 16 * i + rng.randrange(mxe + 1), rng.choice([0, 1, 1, 1, 2])))
         else:
-            evs.append((7, 16 * i + rng.randrange(mx + 1), 0))
+            evs.append((7, 16 * i + rng.randrange(mxe + 1), 0))
     return mk(mx, mode, ncalls, ds, evs)
 
 
-def exhaustive(depth, mx, mode, ds, ncalls=1, rerr=False):
+def exhaustive(depth, mx, mode, ds, ncalls=1, rerr=False, create=False):
     alpha = [(1, 0, 0), (3, 1, 0), (3, 2, 0)]
-    for k in range(mx):
+    amx, mx = min(mx, 3), mx      # the alphabet names the first inner calls / clones only
+    for k in range(amx):
         alpha += [(4, k, 0), (4, k, 1)]
+    if create:
+        alpha += [(8, 0, 0)]
     if ncalls > 1:
         alpha += [(1, 1, 0), (4, 16, 1), (4, 17, 0)]
     alpha += [(2, 0, 0), (4, 0, 2)]
     if rerr:
         alpha += [(7, 1, 0)]
     if gated(mode):
-        alpha += [(5, k, 0) for k in range(1, mx)]
+        alpha += [(5, k, 0) for k in range(1, amx)]
     if rerr:
-        alpha += [(6, k, 0) for k in range(1, mx)]
+        alpha += [(6, k, 0) for k in range(1, amx)]
     for L in range(1, depth + 1):
         for evs in itertools.product(alpha, repeat=L):
             yield mk(mx, mode, ncalls, ds, evs)
@@ -605,7 +766,8 @@ def generate(rng, tier):
         out += [timeline_script(rng, 2) for _ in range(250)]
         out += [timeline_script(rng, rng.choice([3, 4])) for _ in range(80)]
         out += [random_script(rng) for _ in range(700)]
-        out += list(exhaustive(3, 2, 0, [2]))
+        out += [large_max_script(rng) for _ in range(250)]
+        out += list(exhaustive(3, 2, 0, [2], create=True))
         out += list(exhaustive(3, 2, 4, [1], rerr=True))
         out += list(exhaustive(3, 2, 1, [], rerr=True))
     else:
@@ -613,7 +775,10 @@ def generate(rng, tier):
         out += [timeline_script(rng, 2) for _ in range(6000)]
         out += [timeline_script(rng, rng.choice([3, 4])) for _ in range(2000)]
         out += [random_script(rng, 50) for _ in range(16000)]
+        out += [large_max_script(rng) for _ in range(6000)]
         out += list(exhaustive(5, 2, 0, [2]))
+        out += list(exhaustive(4, 2, 0, [2], create=True))
+        out += list(exhaustive(3, USIZE_MAX, 0, [1]))
         out += list(exhaustive(4, 3, 2, [0, 2]))
         out += list(exhaustive(4, 2, 1, []))
         out += list(exhaustive(4, 3, 0, [1]))
@@ -647,7 +812,9 @@ def nontrivial(s, t):
 def classify(s, t):
     d = decode(s, t)
     mx, mode, ncalls, ds, evs = header(s)
-    out = ["max%s" % (mx if mx <= 5 else "6to16"), "calls%d" % ncalls, "gated" if gated(mode) else "always_ready",
+    raw_max = s[0] if s else 0
+    out = ["max%s" % (mx if mx <= 5 else "6to16" if mx <= 16 else "_17to300" if mx <= 300 else "_at_channel_limit" if mx == MAX_PERMITS
+                      else "_above_channel_limit"), "calls%d" % ncalls, "gated" if gated(mode) else "always_ready",
            "share%d" % ((mode // 8) % 4)]
     if mode % 4 == 1:
         out.append("delay_immediate")
@@ -655,7 +822,7 @@ def classify(s, t):
         out.append("delay_dynamic" + ("_zero_first" if (not ds or ds[0] == 0) else ""))
     else:
         out.append("delay_fixed" + ("_zero" if not latency_mode(mode, ds) else ""))
-    used = [raw_delay(mode, ds, k) for k in range(1, mx)]
+    used = [raw_delay(mode, ds, k) for k in range(1, min(mx, 17))]
     if any(x >= DMAX for x in used):
         out.append("delay_has_duration_max")
     if any(20000 <= x < DMAX for x in used) and not micros(mode):
@@ -670,8 +837,22 @@ def classify(s, t):
         out.append("has_ready_err")
     if any(e[0] == 7 for e in evs):
         out.append("has_sync_panic_in_call")
+    if raw_max <= 0:
+        out.append("max0_through_builder")
     if d:
         evt = d[4]
+        out.append("monitor_layer2_abstained" if abstention(s, t) else "monitor_layer2_followed")
+        # a call made (Create) at an earlier instant than its first poll
+        made_at = {}
+        for (e, o) in evt:
+            if e[0] == 8 and e[1] not in made_at:
+                made_at[e[1]] = o[6]
+            if e[0] == 1 and e[1] in made_at and made_at[e[1]] is not None:
+                if o[6] > made_at[e[1]]:
+                    out.append("first_poll_later_than_call")
+                made_at[e[1]] = None
+            if e[0] in (1, 2) and e[1] not in made_at:
+                made_at[e[1]] = None
         rs = set(o[0] for (_, o) in evt)
         for r, name in ((1, "ok"), (3, "all_failed"), (5, "panic")):
             if r in rs:
